@@ -8,10 +8,11 @@
 #      (/repo is never written);
 #   2. cmd/vcheck20 is built twice with that overlay, in parallel: plain (schedule exploration) and -race
 #      (free-running pass);
-#   3. the free-running pass runs first: the same scenario bodies on real goroutines, shim in pass-through
-#      mode, C20_RACE_ITER (default 200) iterations per scenario; race reports go to /verif/out/c20_race/;
-#   4. `vcheck20 run C20 <tier>`: schedule exploration over 16 worker processes; worker 0 folds the result of
-#      step 3 into the same report. Evidence: /verif/evidence/C20.json. Every violation class (non-sequential
+#   3. the free-running pass is started in the background: the same scenario bodies on real goroutines, shim in
+#      pass-through mode, C20_RACE_ITER (default 200) iterations per scenario; race reports go to
+#      /verif/out/c20_race/;
+#   4. `vcheck20 run C20 <tier>`: schedule exploration over 16 worker processes; worker 0 waits for step 3 and
+#      folds its result into the same report. Evidence: /verif/evidence/C20.json. Every violation class (non-sequential
 #      outcome, deadlock, panic, trust store loaded twice, data race) prints
 #      `VIOLATION property=C20 replay=<file>`; replay a schedule with `run_c20.sh replay <file>`.
 # Exit: 0 clean (also when a deadline cut the exploration short: exhaustive=false), 1 violation, 2 harness error.
@@ -53,19 +54,28 @@ if [ $r1 -ne 0 ] || [ $r2 -ne 0 ]; then
   cat "$T/b1.log" "$T/b2.log" >&2; echo "HARNESS-ERROR instrumented build failed" >&2; exit 2
 fi
 
-say "free-running -race pass"
+say "free-running -race pass (background, 3 processes) + schedule exploration ($TIER)"
 rm -rf "$RACEDIR"; mkdir -p "$RACEDIR"
 ITER=${C20_RACE_ITER:-200}
-GORACE="log_path=$RACEDIR/race.log halt_on_error=0 exitcode=0 history_size=3" "$T/vcheck20race" race "$ITER" >"$RACEDIR/stdout" 2>"$RACEDIR/stderr"
-rr=$?
-tail -n 2 "$RACEDIR/stderr" >&2
-if [ $rr -eq 0 ] || [ $rr -eq 1 ]; then echo "done $ITER iterations per scenario, exit=$rr" >"$RACEDIR/status"; else echo "failed exit=$rr" >"$RACEDIR/status"; tail -n 20 "$RACEDIR/stderr" >&2; fi
+(
+  pids=()
+  for grp in S1,S2,S4 S3 S5,S5f; do
+    C20_ONLY=$grp GORACE="log_path=$RACEDIR/race.log halt_on_error=0 exitcode=0 history_size=3" \
+      "$T/vcheck20race" race "$ITER" >"$RACEDIR/stdout.$grp" 2>"$RACEDIR/stderr.$grp" & pids+=($!)
+  done
+  worst=0
+  for p in "${pids[@]}"; do wait $p; r=$?; [ $r -gt $worst ] && worst=$r; done
+  cat "$RACEDIR"/stdout.* >"$RACEDIR/stdout"
+  if [ $worst -le 1 ]; then echo "done $ITER iterations per scenario, exit=$worst" >"$RACEDIR/status"; else echo "failed exit=$worst" >"$RACEDIR/status"; fi
+) & racepid=$!
 
-say "schedule exploration ($TIER)"
 # workers inherit the address-space cap: a runaway allocation kills one worker (reported), not the sandbox
 ( ulimit -v ${VERIF_ULIMIT_KB:-12000000} 2>/dev/null || true
   C20_RACE_DIR="$RACEDIR" "$T/vcheck20" run C20 "$TIER" )
 rc=$?
+wait $racepid
+grep -h "race pass:" "$RACEDIR"/stderr.* >&2
+grep -q "^failed" "$RACEDIR/status" && tail -n 20 "$RACEDIR"/stderr.* >&2
 
 # vacuity guard: schedules and distinct observed outcomes per scenario, from the evidence just written
 EV=${VERIF_EVIDENCE_DIR:-/verif/evidence}/C20.json
